@@ -4,6 +4,7 @@ Data file operations and readers/writers for the Python Iceberg implementation
 
 import os
 import tempfile
+from decimal import Decimal
 from typing import TYPE_CHECKING, Any, Dict, Iterator, List, Optional, Tuple, Union
 
 import pyarrow as pa
@@ -519,7 +520,26 @@ class DataFileManager:
             str(f["name"]) for f in iceberg_schema.fields if f.get("required", False)
         }
 
+        # Columns whose Arrow type is integer-backed: pyarrow's from_pylist
+        # silently TRUNCATES a fractional float/Decimal there (1.5 -> 1, and
+        # 1.5 into a date column -> 1970-01-02) instead of raising.
+        integral = {
+            str(f["name"])
+            for f in iceberg_schema.fields
+            if f.get("type") in ("int", "long", "date", "time", "timestamp")
+        }
+
         for i, record in enumerate(records):
+            for name in integral:
+                value = record.get(name)
+                if isinstance(value, bool) or not isinstance(value, (float, Decimal)):
+                    continue
+                if value != value or value in (float("inf"), float("-inf")) or value != int(value):
+                    raise ValueError(
+                        f"Record {i}: value {value!r} for field '{name}' has a fractional or "
+                        f"non-finite part that its integer-backed type cannot represent. "
+                        f"Refusing to silently truncate it."
+                    )
             unknown = {str(k) for k in record.keys()} - allowed
             if unknown:
                 raise ValueError(
